@@ -262,7 +262,13 @@ class SElem(Cell):
             return v
         if a.zero:
             return dag.ZERO
-        raise AnalysisBroken("read of %s[%s] before it was written (at %s)" % (a.name, self.idx, self.site))
+        # nothing wrote this element and the harness gave the array no initial contents: the program reads indeterminate
+        # memory.  Recorded (report.finish turns an unreported entry into a violation) and continued with an arbitrary value.
+        from . import conc as _conc
+        _conc.GLOBAL_UNINIT.append((a.name, self.idx, self.site))
+        v = dag.atom("indeterminate(%s[%s])" % (a.name, self.idx))
+        a.sym[self.idx] = v
+        return v
 
     def set(self, v):
         a = self.arr
